@@ -327,7 +327,7 @@ def summarize(report, results, prop):
         v_ = r.get('validated') or {}
         if v_.get('ok') is True:
             nvalid += 1
-        elif 'ok' in v_ and v_.get('ok') is None:
+        elif 'ok' in v_ and v_.get('ok') is None and 'no model' not in str(v_.get('why')):
             # the replay driver did not build / run: nothing this harness would "confirm" or "not reproduce" can be believed
             report.harness_errors.append('REPLAY DRIVER BROKEN in %s: %s' % (r['unit'], str(v_.get('why'))[-300:]))
             mism.append(r['unit'])
